@@ -454,6 +454,37 @@ def check(ctx):
         ctx.ob("R15-g", px, "the shared portal is always shut down gracefully: the last leaver's own exception says nothing about calls other threads still have "
                "running through it (they are awaited, not cancelled)", ok, node=stmt_of(c),
                detail="" if ok else f"`{norm(stmt_of(c))}` forwards the leaving thread's exception: start_blocking_portal would then cancel every remaining call", by=("__exit__(None, None, None)",))
+        # the shutdown joins every task still running through the portal - and such a task (or a thread it waits for) may itself need the
+        # provider: it runs after the provider's lock has been released
+        is_lock_with = lambda x: isinstance(x, ast.With) and any(ast.unparse(i.context_expr) == "self._lock" for i in x.items)
+        locked = lexically_inside(c, is_lock_with, stop=px.node)
+        ctx.ob("R15-g", px, "the portal is shut down (a blocking join) outside the provider's lock", not locked, node=stmt_of(c), by=("outside with self._lock",),
+               detail="" if not locked else f"`{norm(stmt_of(c))}` runs inside `with self._lock`: a task the shutdown waits for that enters the provider "
+                                            "(directly or through a worker thread) deadlocks with the leaving thread")
+        # ... and in the *same* locked section that found no lease left the provider forgets the portal, so that a thread entering while the
+        # old portal is still shutting down starts a fresh one instead of being handed the dying one
+        wdec = None
+        if dec:
+            n_ = dec[0][0]
+            while n_ is not None and not is_lock_with(n_):
+                n_ = getattr(n_, "_parent", None)
+            wdec = n_
+        resets = ctx.sites(px, "self._portal_cm = None")
+        okr = bool(resets) and wdec is not None and all(any(y is r_ for y in ast.walk(wdec)) for r_, _ in resets)
+        ctx.ob("R15-g", px, "the provider forgets the portal in the locked section that returned the last lease", okr, by=("self._portal_cm = None under the same lock",),
+               node=resets[0][0] if resets else px.node,
+               detail="" if okr else "`self._portal_cm = None` is missing from the `with self._lock` block that decrements the leases: between that block and the "
+                                     "reset another thread's __enter__ sees the old portal and is handed a portal that is shutting down")
+
+        def step_r(st, e, c_):
+            return True if e == "reset" and not c_.is_exc else st
+
+        def exit_r(kind, st, facts):
+            if kind == "return" and not st and any(z in facts for z in (F("not self._leases"), F("self._leases == 0"))):
+                return "__exit__ returns with no lease left and the old portal still registered"
+            return None
+
+        ctx.paths("R15-g", px, [("reset", "self._portal_cm = None")], step_r, False, exit_r, instance="the last leaver resets the provider")
         tk = ctx.sites(px, "$P = self._portal_cm")
         if ctx.need("R15-g", px, "`portal_cm = self._portal_cm` for the last lease", len(tk), 1):
             ctx.require_at("R15-g", px, tk[0][0], [["not self._leases"], ["0 == self._leases"]], instance="the portal is shut down only when no lease is left")
